@@ -11,8 +11,7 @@ pub mod chrono_text {
     pub uninterp spec fn utc_ns(t: DateTime<Utc>) -> int;
     pub uninterp spec fn utc_of(t: DateTime<FixedOffset>) -> DateTime<Utc>;
     pub uninterp spec fn fixed_of(t: DateTime<Utc>) -> DateTime<FixedOffset>;
-    /// what `str::parse::<F>()` returns (std; per-type meaning by the axioms below)
-    pub uninterp spec fn parse_of<F>(s: Seq<char>) -> Option<F>;
+    pub use crate::parse_spec::parse_of;
     /// years 0001-9999 and an offset of whole minutes: the timestamps RFC 3339 text can spell exactly
     pub uninterp spec fn rfc3339_exact(t: DateTime<FixedOffset>) -> bool;
     #[verifier::external_body]
@@ -41,13 +40,5 @@ pub mod chrono_text {
     impl From<DateTime<Utc>> for DateTime<FixedOffset> { #[verifier::external_body] fn from(v: DateTime<Utc>) -> (r: DateTime<FixedOffset>) { unimplemented!() } }
     impl vstd::std_specs::convert::FromSpecImpl<DateTime<FixedOffset>> for DateTime<Utc> { open spec fn obeys_from_spec() -> bool { true } open spec fn from_spec(v: DateTime<FixedOffset>) -> DateTime<Utc> { utc_of(v) } }
     impl From<DateTime<FixedOffset>> for DateTime<Utc> { #[verifier::external_body] fn from(v: DateTime<FixedOffset>) -> (r: DateTime<Utc>) { unimplemented!() } }
-    #[verifier::external_trait_specification]
-    pub trait ExFromStr: Sized {
-        type ExternalTraitSpecificationFor: std::str::FromStr;
-        type Err;
-        fn from_str(s: &str) -> Result<Self, Self::Err>;
-    }
-    pub assume_specification<F: std::str::FromStr>[str::parse::<F>](s: &str) -> (r: Result<F, <F as std::str::FromStr>::Err>)
-        ensures match parse_of::<F>(s@) { Some(v) => r is Ok && r->Ok_0 == v, None => r is Err };
     #[verifier::external_body] pub fn __parse_error_text(e: &ParseError) -> String { unimplemented!() }
 }
